@@ -19,7 +19,7 @@ class P(Prop):
     N_THOROUGH = 3000
     PANICS = False
     RULE = ("pool cases on the real ThreadPool built with the cfg(rws_verif) hooks: pool sizes 1..8, 0..4N tasks of kinds instant / sleeping / "
-            "rendezvous-of-N, every hook point perturbed by seeded sleeps and yields (lock acquired, job received, job finished, submit).  The "
+            "rendezvous-of-N / arriving after an idle pause, every hook point perturbed by seeded sleeps and yields (lock acquired, job received, job finished, submit).  The "
             "recorded event trace must be accepted by the extracted transition system (Pool.accept_trace, allowing only the late-'Received' "
             "commutation).  Oracle (implementation only): every task ran exactly once, all tasks finished, every rendezvous of N completed (N "
             "tasks really run at the same time), and a final rendezvous probe of N completes.  Non-trivial = a case with at least N tasks, "
@@ -43,6 +43,11 @@ class P(Prop):
                 nr = spec.count("r")
                 extra = (-nr) % N
                 spec += "r" * extra
+            if spec and rnd.random() < 0.12:
+                # an idle pool: the submitter pauses (0.35 s) before some tasks - at the start, after a burst, or both
+                k = rnd.choice([0, 0, len(spec) // 2, len(spec) - 1])
+                if spec[k] == "i" or k == 0 and spec[0] in "is": spec = spec[:k] + "d" + spec[k + 1:]
+                if rnd.random() < 0.3 and spec[-1] in "is": spec = spec[:-1] + "d"
             out.append("pool %d %d %s" % (rnd.randrange(1 << 30), N, spec or "-"))
         return out
 
